@@ -294,6 +294,9 @@ func slScenario(t *tr.W, sc *slScript, free bool) string {
 				if kind == "itfirst" || kind == "itseek" || kind == "itnext" || kind == "itrefresh" {
 					if it == nil {
 						it = r.sl.NewIterator(skiplist.CompareInt, r.sl.MakeBuf())
+						if free && rand.Intn(2) == 0 {
+							it.SetRefreshInterval(1 + rand.Intn(3)) // periodic SMR refresh inside Next (C15: must not change the guarantees)
+						}
 					}
 					if (kind == "itnext" || kind == "itrefresh") && !(r.itPositioned(name) && it.Valid()) {
 						continue
@@ -366,7 +369,19 @@ func slScenario(t *tr.W, sc *slScript, free bool) string {
 					r.keep = append(r.keep, itm)
 					r.mu.Unlock()
 					t.Emit(tr.Ev{"e": "Call", "p": name, "op": "ins", "k": arg, "n": id, "h": h})
-					n, ok := r.sl.Insert3(itm, skiplist.CompareInt, nil, buf, h, false, &r.sl.Stats)
+					var n *skiplist.Node
+					var ok bool
+					if free && id%3 == 0 {
+						// random level through NewLevel (may raise the maximum level concurrently)
+						n, ok = r.sl.Insert2(itm, skiplist.CompareInt, nil, buf, rand.Float32, &r.sl.Stats)
+						if ok {
+							r.mu.Lock()
+							r.lvls[id] = n.Level()
+							r.mu.Unlock()
+						}
+					} else {
+						n, ok = r.sl.Insert3(itm, skiplist.CompareInt, nil, buf, h, false, &r.sl.Stats)
+					}
 					if ok {
 						r.learn(id, n)
 						r.mu.Lock()
